@@ -146,3 +146,33 @@ def pose_group_laws_on_sequences(env, cfg, ck):
         ck.eq('div-self[%d]' % i, XdX.data[i], np.eye(n), scale=sc)
         ck.eq('inv-of-product[%d]' % i, XYi.data[i], YiXi.data[i], scale=sc * sc)
         ck.eq('inv-of-power[%d]' % i, P2i.data[i], Pm2.data[i], scale=sc * sc)
+
+
+@contract('C02', targets=['spatialmath.quaternion.UnitQuaternion.__pow__', 'spatialmath.quaternion.Quaternion.__pow__', 'spatialmath.base.quaternions.qpow',
+                          'spatialmath.quaternion.UnitQuaternion.inv', 'spatialmath.quaternion.UnitQuaternion.__mul__'],
+          configs=product(n=list(range(-8, 9))))
+def unit_quaternion_integer_powers(env, cfg, ck):
+    """q**n is the n-fold Hamilton product (q**0 the identity, q**-n the inverse of q**n), also for a two-valued object"""
+    np, sm = env.np, env.sm
+    n = cfg['n']
+    q = env.unitvec('q', 4)
+    p = env.unitvec('p', 4)
+    X = sm.UnitQuaternion(np.array(q), norm=False, check=False)
+    P = ck.call(lambda: X ** n)
+    ck.is_instance('pow-class', P, sm.UnitQuaternion)
+
+    def spec(v):
+        e = np.array([1, 0, 0, 0])
+        b = np.array(v) if n >= 0 else A.qconj(np, np.array(v))
+        for _ in range(abs(n)):
+            e = A.hamilton(np, e, b)
+        return e
+    ck.eq('pow-is-n-fold-product', P.vec, spec(q))
+    if n > 0:
+        ck.eq('neg-pow-is-inverse', ck.call(lambda: (X ** -n) * (X ** n)).vec, np.array([1, 0, 0, 0]))
+    if n in (-3, 0, 5):
+        M = sm.UnitQuaternion([np.array(q), np.array(p)], norm=False, check=False)
+        PM = ck.call(lambda: M ** n)
+        ck.true('multi:len', len(PM) == 2)
+        ck.eq('multi:0', PM.data[0], spec(q))
+        ck.eq('multi:1', PM.data[1], spec(p))
